@@ -15,7 +15,7 @@ from ..core import Check, ERR
 from ..c02_util import (LAYOUTS, SHAPES, SHAPE_BY_NAME, USER_FNS, EFFECT_TEXT, Gen, bracket_last_line, expr_from_json,
                         expr_to_json, gen_grouping, gen_request, gen_rule, has_eval, matcher_lines, model_req,
                         model_text, run_real, spec_req, sub_conditions, tokens_of, value_desc, value_from_desc,
-                        wire_tok, depth_of, R, P, S, EQ, AND, CMP_TEXT)
+                        wire_tok, depth_of, R, P, S, EQ, AND, CMP_TEXT, SUBS, OBJS, run_real_seq, world_oracle_reqs, world_text)
 
 PROP = "C02"
 F_BRACKET = "C02-continuation-bracket-line"
@@ -249,6 +249,295 @@ def stratum_mixed_suffix(chk):
     chk.extra["mixed_suffix_cases"] = n
 
 
+# ------------------------------------------------------------------------------ one enforcer, several worlds
+def _new_rules(rng, sh, gs, n):
+    rules, subs = [], []
+    for _ in range(n):
+        r, sb = gen_rule(rng, sh, lambda: gs.expr(rng.choice([0, 1, 2])))
+        if r not in rules:
+            rules.append(r)
+            subs.append(sb)
+    return rules, subs
+
+
+def _aimed_request(rng, sh, rules):
+    """a request built from a stored rule's own fields (string-typed request fields only), else a random one"""
+    if rules and all(sh.types.get(f, "str") == "str" for f in sh.rdef) and all(f in sh.pdef for f in sh.rdef):
+        r = rng.choice(rules)
+        return [r[sh.pdef.index(f)] for f in sh.rdef]
+    return gen_request(rng, sh)
+
+
+def sequence_cases(rng, n):
+    """random sequences of worlds on ONE enforcer: between two worlds exactly one thing changes - the policy, the role
+    assignments (optionally after the role manager objects were replaced), the registered functions, the matcher
+    (set_model), the definitions asked (plain m, then m2 through a context), or the user functions start asking the
+    enforcer a nested question"""
+    out = []
+    for _ in range(n):
+        sh = rng.choice(SHAPES)
+        allf = sorted(USER_FNS)
+        g = Gen(rng, sh, True, allf)
+        gs = Gen(rng, sh, False, allf)
+
+        def fresh_matcher():
+            ast = g.expr(rng.randint(1, 3))
+            if sh.eval_fields and not has_eval(ast) and rng.random() < 0.7:
+                ast = (1, (6, sh.sfx, rng.choice(sh.eval_fields)), (7, ast))
+            mode = rng.choice(LAYOUTS)
+            lines, _ = matcher_lines("m" + sh.sfx, tokens_of(ast), mode, rng)
+            if bracket_last_line(lines):                 # the listed finding's layout is the layout strata's business
+                mode = "wide"
+                lines, _ = matcher_lines("m" + sh.sfx, tokens_of(ast), mode, rng)
+            return ast, mode, lines
+        ast, mode, lines = fresh_matcher() if rng.random() < 0.7 else (sh.seeds[0], "wide", matcher_lines("m" + sh.sfx, tokens_of(sh.seeds[0]), "wide", rng)[0])
+        rules, subs = _new_rules(rng, sh, gs, rng.choice([1, 2, 3]))
+        w = mk_case(sh, ast, mode, lines, rules, subs, gen_grouping(rng, sh), [f for f in allf if rng.random() < 0.4],
+                    [_aimed_request(rng, sh, rules) if rng.random() < 0.5 else gen_request(rng, sh) for _ in range(3)],
+                    rng.choice(sh.effects), stratum="one-enforcer-sequence")
+        worlds = [w]
+        for _ in range(rng.randint(2, 4)):
+            w = dict(worlds[-1])
+            for k in ("via", "swap_rm", "ask", "reenter"):
+                w.pop(k, None)
+            kinds = ["policy", "policy", "functions", "matcher", "reenter"]
+            if sh.gdefs:
+                kinds += ["grouping", "grouping", "swap_rm", "swap_rm"]
+            if sh.sfx:
+                kinds += ["plain", "plain"]
+            kind = rng.choice(kinds)
+            if kind == "policy":
+                keep = [k for k in range(len(w["rules"])) if rng.random() < 0.6]
+                nr, ns = _new_rules(rng, sh, gs, rng.choice([0, 1, 2]))
+                rules = [w["rules"][k] for k in keep]
+                subs = [w["subs"][k] for k in keep]
+                for r, sb in zip(nr, ns):
+                    if r not in rules:
+                        rules.append(r)
+                        subs.append({f: expr_to_json(x) for f, x in sb.items()})
+                w["rules"], w["subs"] = rules, subs
+            elif kind in ("grouping", "swap_rm"):
+                w["swap_rm"] = kind == "swap_rm" or rng.random() < 0.3
+                ng = gen_grouping(rng, sh)
+                w["grouping"] = {k: [r for r in w["grouping"].get(k, []) if rng.random() < 0.5] +
+                                 [r for r in ng[k] if r not in w["grouping"].get(k, [])][:2] for k in ng}
+            elif kind == "functions":
+                missing = [f for f in allf if f not in w["user_fns"]]
+                if missing:
+                    w["user_fns"] = sorted(w["user_fns"] + [rng.choice(missing)])
+            elif kind == "matcher":
+                ast, mode, lines = fresh_matcher()
+                w["ast"], w["layout"], w["lines"], w["via"] = expr_to_json(ast), mode, list(lines), "set_model"
+                # the effect expression stays: set_model does not rebuild the enforcer's effector, and no property says it should
+                if rng.random() < 0.5:
+                    w["user_fns"] = [f for f in allf if rng.random() < 0.5]
+            elif kind == "reenter":
+                w["reenter"] = [value_desc(v) for v in _aimed_request(rng, sh, w["rules"])]
+                if not w["user_fns"]:
+                    w["user_fns"] = list(allf)
+                    w["via"] = None
+            elif kind == "plain":
+                w["ask"] = "plain"
+                w["plain_rules"] = [[rng.choice(["alice", "bob"]), rng.choice(["data1", "data2"]), rng.choice(["read", "write"])]
+                                    for _ in range(rng.randint(0, 3))]
+                w["plain_rules"] = [r for k, r in enumerate(w["plain_rules"]) if r not in w["plain_rules"][:k]]
+            if kind == "plain":
+                w["requests"] = [list(rng.choice(w["plain_rules"])) if w["plain_rules"] and rng.random() < 0.6 else
+                                 [rng.choice(["alice", "bob"]), rng.choice(["data1", "data2"]), rng.choice(["read", "write"])]
+                                 for _ in range(3)]
+            else:
+                rs = [r for r in w["rules"]]
+                w["requests"] = [[value_desc(v) for v in (_aimed_request(rng, sh, rs) if rng.random() < 0.5 else gen_request(rng, sh))]
+                                 for _ in range(3)]
+            worlds.append(w)
+        out.append(dict(stratum="one-enforcer-sequence", worlds=worlds))
+    return out
+
+
+def reentrant_cases(rng):
+    """every string-typed shape, its documented matcher with the subject comparison done by a user function (first,
+    in the middle, last): the same world is asked twice - quietly, and with the user function asking the enforcer a
+    nested question about a request that another rule decides"""
+    out = []
+    for sh in SHAPES:
+        if not all(sh.types.get(f, "str") == "str" for f in sh.rdef) or sh.eval_fields:
+            continue
+        s = sh.sfx
+        fn = (5, "eqf", [R("sub", sfx=s), P("sub", sfx=s)])
+        rest = [EQ(R(f, sfx=s), P(f, sfx=s)) for f in sh.rdef if f != "sub"]
+        for order in (0, 1, len(rest)):
+            ast = AND(*(rest[:order] + [fn] + rest[order:]))
+            for mode in ("none", "wide"):
+                lines, _ = matcher_lines("m" + s, tokens_of(ast), mode, rng)
+                gs = Gen(rng, sh, False, [])
+                for _ in range(3):
+                    rules, subs = _new_rules(rng, sh, gs, 3)
+                    reqs = [[r[sh.pdef.index(f)] for f in sh.rdef] for r in rules]
+                    # requests that differ from a stored rule in exactly one field
+                    for r in list(reqs):
+                        k = rng.randrange(len(r))
+                        alt = [x[k] for x in reqs if x[k] != r[k]]
+                        if alt:
+                            reqs.append(r[:k] + [rng.choice(alt)] + r[k + 1:])
+                    w1 = mk_case(sh, ast, mode, lines, rules, subs, {g: [] for g, _ in sh.gdefs}, ["eqf"], reqs,
+                                 rng.choice(sh.effects), stratum="reentrant-user-function")
+                    w2 = dict(w1)
+                    w2["reenter"] = list(rng.choice(reqs[:len(rules)]))
+                    out.append(dict(stratum="reentrant-user-function", worlds=[w1, w2]))
+                    out.append(dict(stratum="reentrant-user-function", worlds=[w2]))
+    return out
+
+
+def role_manager_cases(rng):
+    """every shape with role definitions, its documented matcher: asked, then the role manager objects are replaced
+    (set_named_role_manager + build_role_links) and the assignments change; g()/g2() follow the CURRENT assignments"""
+    out = []
+    for sh in SHAPES:
+        if not sh.gdefs:
+            continue
+        ast = sh.seeds[0]
+        for mode in ("none", "wide"):
+            lines, _ = matcher_lines("m" + sh.sfx, tokens_of(ast), mode, rng)
+            gs = Gen(rng, sh, False, [])
+            for _ in range(6):
+                rules, subs = _new_rules(rng, sh, gs, 3)
+                g1 = gen_grouping(rng, sh)
+                for g, ar in sh.gdefs:                       # an assignment that makes some rule's subject/object a role
+                    r = rng.choice(rules)
+                    member = rng.choice(OBJS if g == "g2" else SUBS)
+                    role = r[sh.pdef.index("obj" if g == "g2" else "sub")]
+                    link = [member, role] + ([r[sh.pdef.index("dom")]] if ar == 3 else [])
+                    if member != role and link not in g1[g]:
+                        g1[g].append(link)
+                reqs = [gen_request(rng, sh) for _ in range(2)]
+                for g, ar in sh.gdefs:
+                    for link in g1[g][-2:]:
+                        r = rng.choice(rules)
+                        q = [r[sh.pdef.index(f)] for f in sh.rdef]
+                        q[sh.rdef.index("obj" if g == "g2" else "sub")] = link[0]
+                        reqs.append(q)
+                w1 = mk_case(sh, ast, mode, lines, rules, subs, g1, [], reqs, rng.choice(sh.effects), stratum="role-manager-replaced")
+                ng = gen_grouping(rng, sh)
+                w2 = dict(w1, swap_rm=True, grouping={g: [l for l in g1[g] if rng.random() < 0.5] + [l for l in ng[g] if l not in g1[g]][:1]
+                                                      for g, _ in sh.gdefs})
+                w3 = dict(w2, swap_rm=rng.random() < 0.5, grouping={g: list(g1[g]) for g, _ in sh.gdefs})
+                out.append(dict(stratum="role-manager-replaced", worlds=[w1, w2, w3]))
+                out.append(dict(stratum="role-manager-replaced", worlds=[dict(w1, swap_rm=True), w2]))
+    return out
+
+
+def seq_parts(sc):
+    """per world: (ast, subs, request values) - built ONCE so that implementation and oracle see the same objects"""
+    parts = []
+    for c in sc["worlds"]:
+        ast = expr_from_json(c["ast"])
+        subs = [{f: expr_from_json(x) for f, x in sb.items()} for sb in c["subs"]]
+        reqs = [[value_from_desc(v) for v in r] for r in c["requests"]]
+        parts.append((ast, subs, reqs))
+    return parts
+
+
+def judge_sequences(chk, seqs):
+    """returns per sequence the list of (world index, request index, impl, spec, model) that differ from the spec
+    (first element) / from the model only (second), and the harness note"""
+    runs, mq, sq = [], [], []
+    for sc in seqs:
+        parts = seq_parts(sc)
+        obs, note = run_real_seq(sc["worlds"], lambda i: parts[i][2])
+        runs.append((obs, note))
+        for c, (ast, subs, reqs) in zip(sc["worlds"], parts):
+            m_, s_ = world_oracle_reqs(c, reqs, subs, ast)
+            mq += m_
+            sq += s_
+    mrep = chk.oracle.query(mq)
+    srep = chk.oracle.query(sq)
+    res, k = [], 0
+    for sc, (obs, note) in zip(seqs, runs):
+        bad, differ = [], []
+        for wi, c in enumerate(sc["worlds"]):
+            for ri in range(len(c["requests"])):
+                o, m, s = obs[wi][ri], mrep[k], srep[k]
+                k += 1
+                if any(isinstance(x, list) and x[:1] == [999] and x[1] in (ERR["EFuel"], 40) for x in (m, s)):
+                    continue
+                if o != s:
+                    bad.append((wi, ri, o, s, m))
+                elif o != m:
+                    differ.append((wi, ri, o, s, m))
+        res.append((bad, differ, note))
+    return res
+
+
+def shrink_sequence(chk, sc, wi, ri):
+    """cut the sequence after the failing world, keep only the failing request there, then drop earlier worlds and
+    rules while it still fails at the last world"""
+    worlds = [dict(w) for w in sc["worlds"][:wi + 1]]
+    worlds[-1]["requests"] = [worlds[-1]["requests"][ri]]
+
+    def fails(ws):
+        try:
+            bad, _, _ = judge_sequences(chk, [dict(sc, worlds=ws)])[0]
+        except Exception:  # noqa
+            return False
+        return any(b[0] == len(ws) - 1 for b in bad)
+    if not fails(worlds):
+        return sc, wi, ri
+    budget = 30
+    j = len(worlds) - 2
+    while j >= 0 and budget > 0:
+        cand = worlds[:j] + worlds[j + 1:]
+        budget -= 1
+        if fails(cand):
+            worlds = cand
+        j -= 1
+    for j in range(len(worlds) - 1):
+        if budget <= 0:
+            break
+        cand = [dict(w) for w in worlds]
+        cand[j]["requests"] = cand[j]["requests"][:1]
+        budget -= 1
+        if fails(cand):
+            worlds = cand
+    return dict(sc, worlds=worlds), len(worlds) - 1, 0
+
+
+def stratum_sequences(chk, n):
+    rng = chk.rng
+    seqs = sequence_cases(rng, n) + reentrant_cases(rng) + role_manager_cases(rng)
+    counts = {}
+    reported = set()
+    for sc, (bad, differ, note) in zip(seqs, judge_sequences(chk, seqs)):
+        counts[sc["stratum"]] = counts.get(sc["stratum"], 0) + 1
+        nreq = sum(len(w["requests"]) for w in sc["worlds"])
+        chk.count((sc["stratum"], json.dumps([(w["lines"], w["rules"], w["grouping"], w.get("via"), w.get("swap_rm"),
+                                                w.get("reenter"), w.get("ask")) for w in sc["worlds"]], default=str)), n=nreq)
+        if bad and sc["stratum"] not in reported:
+            reported.add(sc["stratum"])
+            wi, ri = bad[0][0], bad[0][1]
+            small, wi2, ri2 = shrink_sequence(chk, sc, wi, ri)
+            b2 = [b for b in judge_sequences(chk, [small])[0][0]]
+            if b2:
+                sc, (wi, ri, o, s, m) = small, b2[-1]
+            else:
+                wi, ri, o, s, m = bad[0]
+            w = sc["worlds"][wi]
+            how = ("after " + ", ".join(x for x in (
+                "set_model" if w.get("via") == "set_model" else "", "role managers replaced" if w.get("swap_rm") else "",
+                "a nested question from a user function" if w.get("reenter") is not None else "",
+                "a request without context" if w.get("ask") == "plain" else "") if x)) if any(
+                (w.get("via"), w.get("swap_rm"), w.get("reenter") is not None, w.get("ask"))) else "after policy / function-table changes"
+            chk.spec_fail(dict(sc, failing_world=wi, failing_request=ri), o, s,
+                          "on an enforcer that has answered requests before, the decision differs from the value of the CURRENT "
+                          f"matcher expression on the current request, rules, role assignments and functions ({how})")
+        elif differ and not bad:
+            wi, ri, o, s, m = differ[0]
+            chk.disagree(dict(sc, failing_world=wi, failing_request=ri), o, m, where=f"enforce on stratum {sc['stratum']}")
+        if note:
+            chk.disagree(sc, note, "rules stored as given", where="harness premise (one-enforcer sequences)")
+    chk.traces += len(seqs)
+    return counts
+
+
 # ------------------------------------------------------------------------------ run
 def observe_case(c):
     sh, ast, subs, reqs, text = case_parts(c)
@@ -469,6 +758,10 @@ def run(chk, n_asts, maxdepth, vm_n, nonconst_n):
                           "of the Casbin tokens (layout changed the expression)")
     chk.extra["token_level_cases_multiline"] = n_multi
     stratum_mixed_suffix(chk)
+    import time as _t
+    _t0 = _t.time()
+    seq_counts = stratum_sequences(chk, max(120, n_asts // 2))
+    chk.extra["sequence_strata_wall_s"] = round(_t.time() - _t0, 1)
     # the role function g() with TWO rule-side arguments and names that are concatenations of each other
     from .c05 import stratum_confusable_names
     stratum_confusable_names(chk, 40)
@@ -526,6 +819,7 @@ def run(chk, n_asts, maxdepth, vm_n, nonconst_n):
     chk.extra["sub_conditions_generated"] = chk.extra.get("sub_conditions_generated", 0) + sub_total
     chk.extra["sub_conditions_non_constant"] = chk.extra.get("sub_conditions_non_constant", 0) + sub_nonconst
 
+    strata.update(seq_counts)
     chk.extra["strata"] = strata
     chk.extra["evaluations_per_shape"] = shapes_seen
     chk.extra["exception_classes_compared"] = {str(k_): v for k_, v in sorted(exc_classes.items())}
@@ -544,6 +838,15 @@ def run(chk, n_asts, maxdepth, vm_n, nonconst_n):
 def replay(chk):
     rec = json.load(open(chk.replay_file))
     c = rec.get("case") or {}
+    if "worlds" in c:
+        bad, differ, note = judge_sequences(chk, [c])[0]
+        for wi, ri, o, s, m in bad[:3]:
+            print(f"replay: world {wi} request {c['worlds'][wi]['requests'][ri]} impl={o} spec={s} model={m}")
+        if bad:
+            print(f"VIOLATION property={chk.prop} replay={chk.replay_file}")
+            sys.exit(1)
+        print("replay passes: implementation agrees with the spec in every world of this sequence")
+        sys.exit(0)
     if "lines" not in c or "ast" not in c:
         print("replay file names a broken theorem/correspondence, not an input:", json.dumps(rec.get("broken"))[:800])
         sys.exit(1)
@@ -574,7 +877,10 @@ def main():
                 "blank everywhere, random blanks/tabs, backslash continuations, trailing # comment) x 12 model "
                 "shapes (ACL, superuser, RBAC, resource roles, domains, ABAC objects, keyMatch, effect column with 4 "
                 "effect expressions, eval, two evals, r2/p2/e2/m2 via EnforceContext with and without eval) x "
-                "policies of 0-3 rules x 3 requests over a 4-value universe; plus fixed regression strata.  A case is "
+                "policies of 0-3 rules x 3 requests over a 4-value universe; plus fixed regression strata; plus sequences of "
+                "such worlds on ONE enforcer (policy / role assignments / role manager objects / registered functions / matcher "
+                "via set_model / plain-then-context definitions change between requests; user functions that ask the enforcer a "
+                "nested question).  A case is "
                 "non-trivial when its requests are not all decided alike or an exception class is compared; distinct "
                 "by (shape, model lines, policy, grouping)")
     chk.assumptions = [
